@@ -184,6 +184,12 @@ class World(object):
                 'stamp': [self.stamps[u] for u in range(1, N + 1)]}
 
 
+def _delete(w):
+    os.remove(w.F)
+    return {'op': 'delete', 'kind': 'delete', 'k': 0, 'out': 'none', 'seeded': [], 'dup': False, 'F': 0, 'P': os.path.exists(w.P),
+            'stamp': [w.stamps[u] for u in range(1, N + 1)]}
+
+
 def consts(variant, maxclock=9, n=N):
     return dict(N=n, Interval=INTERVAL, MaxClock=maxclock, Variant=variant)
 
@@ -191,6 +197,8 @@ def consts(variant, maxclock=9, n=N):
 def do_action(w, name, args):
     if name == 'Tick':
         return w.tick(int(args[0]))
+    if name == 'DeleteF':
+        return _delete(w)
     if name == 'CallStop':
         return w.call('stop', int(args[0]))
     return w.call({'CallNoNeed': 'end', 'CallEnd': 'end', 'CallError': 'error'}[name])
@@ -239,7 +247,9 @@ def random_history(rng, n):
         evs = []
         for _ in range(n):
             k = rng.random()
-            if k < 0.25:
+            if k < 0.06 and os.path.exists(w.F):
+                evs.append(_delete(w))
+            elif k < 0.25:
                 evs.append(w.tick(rng.choice([1, 1, INTERVAL])))
             elif k < 0.4:
                 evs.append(w.call('error'))
